@@ -186,7 +186,16 @@ func (env *Env) eval(x Expr) V {
 		if err != nil {
 			panic(specErr("%v", err))
 		}
-		return fc.unbox(v, t)
+		uv := fc.unbox(v, t)
+		if isSlice(t) && !fc.dry && !boundVarRe.MatchString(uv.T[0]) {
+			// the bytes a slice-typed dynamic value views were allocated before now
+			w := and(sx(">=", uv.T[0], "0"), sx("<", uv.T[0], env.cur.ac))
+			if k := "unboxwf:" + fc.reach + ":" + w; !fc.declared[k] {
+				fc.declared[k] = true
+				fc.assume(w)
+			}
+		}
+		return uv
 	case *ETypeLit:
 		panic(specErr("type %s used as a value", e.Ty))
 	}
